@@ -279,6 +279,43 @@ def _check_paths(res, data, case):
                                   name + "<-" + core.site_of(e), case))
 
 
+def through_socket(res):
+    """Whole datagrams up to a datagram's usual size, through the real recvmsg transport over the fake socket (which cuts what does not
+    fit the buffer the transport hands it, as the kernel does): the server's handler sees exactly the payload that was sent."""
+    from ..world import World
+    from aiocoap import resource, Message as M
+    seen = []
+
+    class Sink(resource.Resource):
+        async def render_put(self, request):
+            seen.append(bytes(request.payload))
+            return M(payload=b"")
+    site = resource.Site()
+    site.add_resource(["s"], Sink())
+    w = World()
+    try:
+        srv = ("2001:db8::5", 5683)
+        peer = ("2001:db8::1", 40000)
+        w.add_context("srv", *srv, site=site)
+        for total in (64, 1152, 1280, 1500, 2048, 3071, 3072, 3073, 3500, 4000, 4095, 4096):
+            head = rc.encode((rc.NON, 3, 0x3000 + (total & 0xFFF), b"\x55", [(11, b"s")], b""))
+            pl = bytes((i * 5 + total) & 0xFF for i in range(total - len(head) - 1))
+            data = rc.encode((rc.NON, 3, 0x3000 + (total & 0xFFF), b"\x55", [(11, b"s")], pl))
+            n = len(seen)
+            w.inject(peer, srv, data)
+            w.loop.settle()
+            res.evaluations += 1
+            case = {"dir": "socket", "datagram_bytes": len(data)}
+            if seen[n:] != [pl]:
+                res.violate(Violation("datagram-through-transport", "handler sees the %d payload bytes that were sent" % len(pl),
+                                      [len(x) for x in seen[n:]], "util/asyncio/recvmsg.py:_read_ready", case, key="socket:" + ("short" if seen[n:] else "lost")))
+            res.signatures.add(("socket", total))
+            res.traces += 1
+        res.outcomes.add("socket")
+    finally:
+        w.dispose()
+
+
 TAIL = (0x00, 0x01, 0x0C, 0x0D, 0x0E, 0x0F, 0x10, 0x41, 0x80, 0xB1, 0xC0, 0xD0, 0xD1, 0xE0, 0xE1, 0xF0, 0xF1, 0xFE, 0xFF)
 FIRST = (0x40, 0x41, 0x48, 0x49, 0x4F, 0x50, 0x60, 0x70, 0x00, 0x80, 0xC0)
 
@@ -287,6 +324,7 @@ def job_B_short(arg):
     tier, seed, part = arg
     res = Result()
     if part == "tiny":
+        through_socket(res)
         check_decode(res, b"", True)
         for a in range(256):
             check_decode(res, bytes([a]), True)
@@ -379,7 +417,9 @@ def _dispatch(w):
 
 def replay(case, scenario, seed):
     res = Result()
-    if case["dir"] == "A":
+    if case["dir"] == "socket":
+        through_socket(res)
+    elif case["dir"] == "A":
         t, c, mid, tok, items, pl = case["msg"]
         check_encode(res, t, c, mid, tok, [tuple(tuple(x) if isinstance(x, list) else x for x in it) for it in items], pl)
     else:
